@@ -270,7 +270,7 @@ pub fn recipients(cfg: &Config, c: &FCase) -> Vec<usize> {
 
 pub fn replay_json(cfg: &Config, c: &FCase) -> Value {
     json!({"kind": "fault", "case": cfg.case, "corrupted": cfg.corrupted, "seed": cfg.seed,
-        "faults": c.msgs.iter().zip(&c.muts).map(|(mi, mm)| { let m = &cfg.honest.msgs[*mi]; json!({"to": m.to, "label": m.label, "ord": m.ord, "mutation": mm.detail}) }).collect::<Vec<_>>() })
+        "faults": c.msgs.iter().zip(&c.muts).map(|(mi, mm)| { let m = &cfg.honest.msgs[*mi]; json!({"to": m.to, "label": m.label, "ord": m.ord, "mutation": mm.detail, "bytes_hex": mm.bytes.iter().map(|b| format!("{b:02x}")).collect::<String>()}) }).collect::<Vec<_>>() })
 }
 
 pub fn tape_seed(seed: u64, k: u64) -> u64 {
